@@ -244,6 +244,10 @@ impl<T: Config> SpectatorSession<T> {
             }
             // disconnect the player, then forward to user
             Event::Disconnected => {
+                // a disconnect is final, exactly as for the endpoints of a P2PSession: without
+                // this the endpoint stays in the Running state and keeps reporting
+                // NetworkResumed / NetworkInterrupted for a host the user was told is gone
+                self.host.disconnect();
                 self.event_queue.push_back(GgrsEvent::Disconnected { addr });
             }
             // add the input and all associated information
